@@ -94,7 +94,7 @@ pub fn entry() -> i32 {
         };
         let case = v.get("replay").cloned().unwrap_or(v.clone());
         if case.get("kind").and_then(|k| k.as_str()) == Some("stuck") {
-            println!("REPLAY property={} build={} violated=true a call did not terminate; re-run `./check {}` to reproduce (the stuck case: {})", prop, kit::build_name(), prop, case["case"]);
+            println!("REPLAY property={} build={} violated=true a call did not terminate; re-run `./check {}` to reproduce (the stuck case: {})", prop, kit::build_label(), prop, case["case"]);
             return 3;
         }
         // determinism self-test: the same case twice must give identical observations
@@ -106,7 +106,7 @@ pub fn entry() -> i32 {
         }
         return match a {
             Ok((violated, text)) => {
-                println!("REPLAY property={} build={} violated={} {}", prop, kit::build_name(), violated, text);
+                println!("REPLAY property={} build={} violated={} {}", prop, kit::build_label(), violated, text);
                 if violated {
                     3
                 } else {
@@ -122,7 +122,7 @@ pub fn entry() -> i32 {
     let t0 = Instant::now();
     // watchdog: a single call into swiftness that does not return within the cap ends the run
     // with a non-termination violation (C17 isolates its cases in worker processes itself)
-    kit::watch::start(prop.clone(), kit::build_name(), tier.name(), seed, out.clone(), if tier == Tier::Quick { 90 } else { 300 });
+    kit::watch::start(prop.clone(), kit::build_label(), tier.name(), seed, out.clone(), if tier == Tier::Quick { 90 } else { 300 });
     let rep: Report = match props::run(&prop, &ctx) {
         Some(r) => r,
         None => {
@@ -132,7 +132,7 @@ pub fn entry() -> i32 {
         }
     };
     let wall = t0.elapsed().as_secs_f64();
-    let j = rep.to_json(kit::build_name(), tier.name(), seed, wall);
+    let j = rep.to_json(kit::build_label(), tier.name(), seed, wall);
     let text = serde_json::to_string_pretty(&j).unwrap();
     match out {
         Some(p) => {
@@ -145,7 +145,7 @@ pub fn entry() -> i32 {
     }
     eprintln!(
         "[{} {} {}] evaluations={} distinct_nontrivial={} outcomes={:?} violations={} exhaustive={} wall={:.1}s",
-        prop, kit::build_name(), tier.name(), rep.evaluations, rep.nontrivial, rep.outcomes,
+        prop, kit::build_label(), tier.name(), rep.evaluations, rep.nontrivial, rep.outcomes,
         rep.violations.len(), rep.exhaustive, wall
     );
     if !rep.machinery_errors.is_empty() {
